@@ -1,7 +1,7 @@
 //! Engine `read` (property C01): reading a minidump is total — no panic, hang or runaway
 //! allocation on any bytes.
 //!
-//! case line:   `read <hex(bytes)> [cat=<generator category>]`
+//! case line:   `read cat=<generator category> <hex(bytes)>`  (corpus files: `read <hex(bytes)> [cat=..]`)
 //! model line:  `read <hex(bytes)> sizes:<size_of of the 19 element types>`
 //!
 //! `exec` runs the REAL reader on a watchdogged worker thread with the counting allocator on:
@@ -1149,19 +1149,25 @@ fn run_case(all: &[u8], shared: &Arc<meter::Shared>) -> CaseOut {
     CaseOut { line, oracle: o.oracle, tags: o.tags, nontrivial, a, b }
 }
 
+/// `read cat=<category> <hex>` (generated cases; the runner groups failures by the first two fields,
+/// so the category goes first) or `read <hex> [cat=<category>]` (corpus files, older replays)
 fn parse_case(case: &str) -> Option<(Vec<u8>, String)> {
     let mut it = case.split(' ').filter(|s| !s.is_empty());
     if it.next()? != "read" {
         return None;
     }
-    let bytes = unhex(it.next()?)?;
+    let mut bytes = None;
     let mut cat = String::from("corpus");
     for f in it {
         if let Some(c) = f.strip_prefix("cat=") {
             cat = c.to_string();
+        } else if bytes.is_none() {
+            bytes = Some(unhex(f)?);
+        } else {
+            return None;
         }
     }
-    Some((bytes, cat))
+    Some((bytes?, cat))
 }
 
 fn mem_sizes() -> String {
@@ -2321,7 +2327,7 @@ fn interesting_offsets(b: &[u8]) -> (bool, Vec<usize>) {
 }
 
 fn case_line(bytes: &[u8], cat: &str) -> String {
-    format!("read {} cat={}", hex(bytes), cat)
+    format!("read cat={} {}", cat, hex(bytes))
 }
 
 impl Engine for Read {
